@@ -60,19 +60,30 @@ def strip_wrappers(d):
 def traversal_guards(prog, body, blk):
     """Values V such that block blk is dominated by the false edge of `V.contains("..")`."""
     vals = []
-    for s, lab, d, info in core.guards_dominating(prog, body, blk):
-        if lab != "false":
-            continue
-        for c in core.desc_calls(d):
-            if c[1].endswith("str>::contains") or c[1].endswith("::contains"):
-                if len(c[2]) >= 2 and c[2][1] == ("lit", ".."):
-                    v = c[2][0]
-                    cur, n = body, 0
-                    while cur is not None and cur.kind in ("closure", "coroutine") and n < 4:
-                        v = resolve_upvars(prog, cur, v)
-                        cur = prog.bodies.get(cur.parent)
-                        n += 1
-                    vals.append(strip_wrappers(v))
+    host, hblk, depth = body, blk, 0
+    while host is not None and depth < 4:
+        for s, lab, d, info in core.guards_dominating(prog, host, hblk):
+            if lab != "false":
+                continue
+            for c in core.desc_calls(d):
+                if c[1].endswith("str>::contains") or c[1].endswith("::contains"):
+                    if len(c[2]) >= 2 and c[2][1] == ("lit", ".."):
+                        v = c[2][0]
+                        cur, n = host, 0
+                        while cur is not None and cur.kind in ("closure", "coroutine") and n < 4:
+                            v = resolve_upvars(prog, cur, v)
+                            cur = prog.bodies.get(cur.parent)
+                            n += 1
+                        vals.append(strip_wrappers(v))
+        # a closure runs only where it was created or later: the tests dominating its creation hold inside it as well
+        # (the tested values are immutable strings; a closure stored and called elsewhere still captured the tested value)
+        if host.kind not in ("closure", "coroutine"):
+            break
+        site = core.closure_site(prog, host)
+        if site is None:
+            break
+        host, hblk = site
+        depth += 1
     return vals
 
 
@@ -173,15 +184,16 @@ def analyse_sinks(chk, prog, cfg):
     # format-built paths: directory first
     tfp = prog.bodies.get("humphrey::route::try_find_path")
     if tfp:
-        sites = fmt.format_sites(tfp)
-        chk.floor(f"path construction sites in try_find_path [{cfg}]", len(sites), 2)
-        for blk, parts in sites:
+        hosts = [tfp] + [prog.bodies[c] for c in prog.closures_of(tfp.path) if c in prog.bodies]
+        sites = [(h, blk, parts) for h in hosts for blk, parts in fmt.format_sites(h)]
+        chk.floor(f"path construction sites in try_find_path [{cfg}]", len(sites), 1)
+        for h, blk, parts in sites:
             first = parts[0] if parts else None
             ok = bool(first) and first[0] == "arg" and first[1] is not None and \
-                desc_contains(describe(prog, tfp, first[1]), lambda y: y[0] == "param" and y[2] == "directory") and \
+                desc_contains(describe(prog, h, first[1]), lambda y: y[0] == "param" and y[2] == "directory") and \
                 len(parts) > 1 and parts[1][0] == "lit" and parts[1][1].startswith("/")
-            chk.ob("R2.no_reroot", tfp.path, "path = <directory> + '/' + <checked relative path>", ok,
-                   f"path template is {[(p[0], p[1] if p[0]=='lit' else '') for p in parts]}", where=tfp.where(blk), cfg=cfg)
+            chk.ob("R2.no_reroot", h.path, "path = <directory> + '/' + <checked relative path>", ok,
+                   f"path template is {[(p[0], p[1] if p[0]=='lit' else '') for p in parts]}", where=h.where(blk), cfg=cfg)
 
 
 def content_and_type(chk, prog, cfg):
@@ -298,20 +310,82 @@ def directory_protocol(chk, prog, cfg):
         chk.ob("R4.index_files", tfp.path, "index files are tried in the given order", not bad, f"order-changing call {[t['callee'] for _, t in bad]}", cfg=cfg)
         # only regular files are returned as File: is_file() true edge dominates LocatedPath::File construction
         n_file = 0
-        for blk_i, blk in enumerate(tfp.blocks):
-            for s in blk["stmts"]:
-                rv = s.get("rv")
-                if rv and rv.get("k") == "agg" and rv.get("adt", "").endswith("LocatedPath") and rv.get("variant") == "File":
-                    n_file += 1
-                    gs = core.guards_dominating(prog, tfp, blk_i)
-                    ok = any(lab == "true" and desc_contains(d, lambda y: y[0] == "call" and y[1].endswith("Metadata::is_file")) for s_, lab, d, info in gs)
-                    chk.ob("R4.regular_file", tfp.path, "LocatedPath::File only for is_file() paths", ok,
-                           "a non-regular file can be returned as a file to serve", where=tfp.where(blk_i), cfg=cfg)
-        chk.floor(f"LocatedPath::File construction sites [{cfg}]", n_file, 2)
+        for h in [tfp] + [prog.bodies[c] for c in prog.closures_of(tfp.path) if c in prog.bodies]:
+            for blk_i, blk in enumerate(h.blocks):
+                for s in blk["stmts"]:
+                    rv = s.get("rv")
+                    if rv and rv.get("k") == "agg" and rv.get("adt", "").endswith("LocatedPath") and rv.get("variant") == "File":
+                        n_file += 1
+                        gs = core.guards_dominating(prog, h, blk_i)
+                        ok = any(lab == "true" and desc_contains(d, lambda y: y[0] == "call" and y[1].endswith("Metadata::is_file")) for s_, lab, d, info in gs)
+                        chk.ob("R4.regular_file", h.path, "LocatedPath::File only for is_file() paths", ok,
+                               "a non-regular file can be returned as a file to serve", where=h.where(blk_i), cfg=cfg)
+        chk.floor(f"LocatedPath::File construction sites [{cfg}]", n_file, 1)
 
 
 REF_CONV = r"(::|>::)(deref|deref_mut|as_ref|as_mut|as_str|borrow|clone|to_owned|to_string|into|from)$"
 PATH_DERIVATION_OK = [r"str::<impl str>::strip_prefix$", r"str::<impl str>::strip_suffix$", r"Option::<T>::unwrap_or$", REF_CONV]
+
+
+def _same(a, b):
+    return d_key(strip_wrappers(a)) == d_key(strip_wrappers(b))
+
+
+def strip_equiv(prog, body, d):
+    """(base, affix, 'prefix' | 'suffix') when d is `base.strip_prefix(affix).unwrap_or(base)` (resp. suffix) or its slicing equivalent
+    `if base.starts_with(affix) { &base[affix.len()..] } else { base }` (resp. `ends_with` / `&base[..base.len() - affix.len()]`)."""
+    d = strip_wrappers(d)
+    if not isinstance(d, tuple) or not d:
+        return None
+    if d[0] == "call" and d[1].endswith("Option::<T>::unwrap_or") and len(d[2]) == 2:
+        inner, dflt = strip_wrappers(d[2][0]), d[2][1]
+        m = inner[0] == "call" and core.re.search(r"str::<impl str>::strip_(prefix|suffix)$", inner[1])
+        if m and len(inner[2]) == 2 and _same(inner[2][0], dflt):
+            return strip_wrappers(dflt), inner[2][1], m.group(1)
+        return None
+    if d[0] != "multi" or len(d) < 5 or len(d[1]) != 2 or len(d[4]) != 2:
+        return None
+    for i in (0, 1):
+        sl, keep, bs, bk = d[1][i], d[1][1 - i], d[4][i], d[4][1 - i]
+        if not (isinstance(sl, tuple) and sl[0] == "call" and core.re.search(r"ops::Index<\w+>(>| for str>)::index$", sl[1]) and len(sl[2]) == 2):
+            continue
+        base, rng = sl[2]
+        if not _same(base, keep) or not (isinstance(rng, tuple) and rng[0] == "variant" and len(rng[3]) == 1):
+            continue
+
+        def length_of(x):
+            x = strip_wrappers(x)
+            return x[2][0] if x[0] == "call" and core.re.search(r"str::<impl str>::len$|String::len$", x[1]) and len(x[2]) == 1 else None
+        if rng[1].endswith("ops::RangeFrom"):
+            kind, test, affix = "prefix", "starts_with", length_of(rng[3][0])
+        elif rng[1].endswith("ops::RangeTo"):
+            e = rng[3][0]
+            if e[0] == "field" and e[2] == 0:
+                e = e[1]
+            if not (e[0] == "bin" and e[1] in ("Sub", "SubWithOverflow") and length_of(e[2]) is not None and _same(length_of(e[2]), base)):
+                continue
+            kind, test = "suffix", "ends_with"
+            affix = length_of(e[3]) if e[3][0] != "lit" else ("charlen", e[3][1])
+        else:
+            continue
+        if affix is None:
+            continue
+
+        def tested(blk, want):
+            for s_, lab, g, info in core.guards_dominating(prog, body, blk):
+                if lab == want and isinstance(g, tuple) and g[0] == "call" and g[1].endswith("str::<impl str>::" + test) and len(g[2]) == 2 and _same(g[2][0], base):
+                    pat = g[2][1]
+                    if affix[0] == "charlen":
+                        # a one-byte (ASCII) character pattern
+                        if pat[0] == "lit" and isinstance(pat[1], int) and pat[1] < 128 and affix[1] == 1:
+                            return pat
+                    elif _same(pat, affix):
+                        return pat
+            return None
+        pat = tested(bs, "true")
+        if pat is not None and tested(bk, "false") is not None:
+            return strip_wrappers(keep), pat, kind
+    return None
 
 
 def request_path_derivation(chk, prog, cfg):
@@ -325,6 +399,19 @@ def request_path_derivation(chk, prog, cfg):
             d = core.describe_r(prog, b, t["args"][1])
             uri = desc_contains(d, lambda y: y[0] == "field" and y[2] == 1 and desc_contains(y[1], lambda z: z[0] == "param" and z[2] == "request"))
             chk.ob("R5.request_path", path, "try_find_path looks up a value derived from request.uri", uri, f"looks up {core.short(str(d))[:160]}", where=b.where(blk), cfg=cfg)
+            eq = strip_equiv(prog, b, d)
+            if eq is not None and eq[2] == "prefix" and strip_wrappers(d)[0] == "multi":
+                # slicing form of strip_prefix(route-without-`*`).unwrap_or(uri)
+                base, pre, _ = eq
+                base_ok = base[0] == "field" and base[2] == 1 and all(core.re.search(REF_CONV, c[1]) for c in core.desc_calls(base))
+                chk.ob("R5.request_path", path, "request.uri -> try_find_path passes only through strip_prefix(route).unwrap_or(uri) and reference conversions", base_ok,
+                       f"sliced value is {core.short(str(base))[:120]}", where=b.where(blk), cfg=cfg)
+                peq = strip_equiv(prog, b, pre)
+                is_route = lambda x: strip_wrappers(x)[0] == "param" and strip_wrappers(x)[2] == "route"
+                okp = is_route(pre) or (peq is not None and peq[2] == "suffix" and is_route(peq[0]) and peq[1] == ("lit", 42))
+                chk.ob("R5.request_path", path, "the prefix removed is the matched route without its trailing `*`", okp,
+                       f"prefix = {core.short(str(pre))[:160]}", where=b.where(blk), cfg=cfg)
+                continue
             calls = sorted(set(c[1] for c in core.desc_calls(d)))
             odd = [c for c in calls if not any(core.re.search(rx, c) for rx in PATH_DERIVATION_OK)]
             chk.ob("R5.request_path", path, "request.uri -> try_find_path passes only through strip_prefix(route).unwrap_or(uri) and reference conversions", not odd,
@@ -360,6 +447,25 @@ def request_path_derivation(chk, prog, cfg):
             for s_, lab, info in star:
                 other = [tgt for l2, tgt in info["edges"].items() if l2 != lab]
                 stops = stops or not any(nb in dh.reachable(other) for nb in nexts)
+            # counted form: `for _ in 0..matches.chars().take_while(|c| c != '*').count() { uri.remove(0) }`
+            def counted(dd):
+                if not (isinstance(dd, tuple) and dd[0] == "call" and core.re.search(r"Range<\w+>>::next$", dd[1])):
+                    return False
+                for rg in (y for y in core.desc_subterms(dd) if isinstance(y, tuple) and y[0] == "variant" and y[1].endswith("ops::Range") and len(y[3]) == 2):
+                    lo, hi = rg[3]
+                    if lo != ("lit", 0) or not (hi[0] == "call" and hi[1].endswith("Iterator::count")):
+                        continue
+                    tw = hi[2][0]
+                    if not (tw[0] == "call" and tw[1].endswith("Iterator::take_while") and tw[2][0][0] == "call" and tw[2][0][1].endswith("::chars")
+                            and desc_contains(tw[2][0][2][0], lambda z: z[0] == "param" and z[2] == "matches") and len(core.desc_calls(tw[2][0][2][0])) == 0):
+                        continue
+                    cl = tw[2][1]
+                    cb = prog.bodies.get(cl[1]) if cl[0] == "closure" else None
+                    if cb is not None and cb.argc == 2 and core.describe(prog, cb, 0) == ("bin", "Ne", ("param", 2, None), ("lit", 42)):
+                        return True
+                return False
+            if any(lab == "Some" and counted(dd) for s_, lab, dd, info in gs) and not star:
+                per_char = not_star = stops = True
             chk.ob("R5.request_path", dh.path, "the looked-up path is request.uri with one leading character removed per route character before `*`",
                    is_rm and per_char and not_star and stops and len(muts) == 1,
                    f"edit={core.short(t['callee'])} remove(0)={is_rm} per-route-char={per_char} only-before-star={not_star} stops-at-star={stops} edits={len(muts)}",
